@@ -469,3 +469,85 @@ SPECS["C14"] = dict(
     floor_evals={"quick": 100, "thorough": 2000},
     floor_nontrivial={"quick": 100, "thorough": 2000},
 )
+
+SPECS["C17"] = v1spec(
+    "TestVerifC17", "stringclassifier/searchset", ["searchset"],
+    title="v1 token offsets and candidate ranges always delimit real text",
+    exhaustive=True,
+    rule=("(1) tokenizer invariants (text == s[Offset:Offset+len], increasing non-overlapping tokens, every non-space rune covered, no whitespace inside a token) on EVERY string of length <= 6 (quick) / 8 (thorough) "
+          "over the 7-symbol alphabet {a, b, space, '.', newline, 0xFF, e-acute} (exhaustive=true refers to this sub-space), plus seeded long strings over a 14-symbol alphabet incl. NBSP, CJK, combining marks, "
+          "U+2028, truncated UTF-8; (2) FindPotentialMatches invariants (candidates non-empty, ordered by target position, inside the target's token bounds, byte range 0 <= start <= end <= len(target)) on seeded "
+          "(source, target) pairs from vocabularies of 2-8 one-letter words (highly repetitive), lengths 3-40, with/without an embedded copy, several separators incl. invalid bytes. "
+          "case = one block of strings / 500 pairs; non-trivial = block judged (pairs: at least one candidate); distinct = block."),
+    shards={"quick": 1, "thorough": 2}, workers={"quick": 16, "thorough": 8},
+    floor_evals={"quick": 150, "thorough": 5000},
+    floor_nontrivial={"quick": 150, "thorough": 5000},
+    timeout={"quick": 1500, "thorough": 3 * 3600},
+)
+
+
+def run_multi(ctx, spec):
+    """Several harness binaries (packages) serve one property; their events are merged."""
+    tier = ctx["tier"]
+    events, crashes, sigs = [], [], set()
+    ndones = 0
+    bts = {}
+    for part in spec["parts"]:
+        binary, bt = driver.build_test(ctx["scratch"], part["module"], part["pkgdir"], part["harness"], race=part.get("race", False),
+                                       stubs=part.get("stubs", ()), out=part["out"])
+        bts[part["out"]] = round(bt, 1)
+        cwd = os.path.join(driver.REPO, part.get("cwd", part["module"]))
+        nshards = part.get("shards", {}).get(tier, 1)
+        env = {"VERIF_WORKERS": str(part.get("workers", {}).get(tier, 16)), "VERIF_CASE_TIMEOUT": str(part.get("case_timeout", 600))}
+        env.update(part.get("env", {}))
+        ctx["gomaxprocs"] = max(2, int(env["VERIF_WORKERS"]))
+        if ctx.get("only") is not None:
+            rp = ctx.get("replay") or {}
+            if rp.get("harness") and rp.get("harness") != part["test"] and rp.get("part") != part["out"]:
+                continue
+            nshards = 1
+            env["VERIF_ONLY"] = str(ctx["only"])
+            env["VERIF_WORKERS"] = "1"
+        ctx["tag"] = spec.get("name", ctx["prop"]) + "_" + part["out"]
+        ev, cr, sg = driver.run_sharded(ctx, binary, part["test"], cwd, nshards, part.get("timeout", {}).get(tier, 3600), extra_env=env)
+        for e in ev:
+            e.setdefault("part", part["out"])
+        for c in cr:
+            c["part"] = part["out"]
+        events += ev
+        crashes += cr
+        sigs |= set((part["out"].encode() + s) for s in sg)
+        ndones += nshards
+    ctx["expected_dones"] = ndones
+    ctx["tag"] = ctx["prop"]
+    post = spec.get("post")
+    extra = post(ctx, spec, events, crashes) if post else {}
+    cov = {"harness_build_s": bts}
+    cov.update((extra or {}).get("cov", {}))
+    return driver.summarize(ctx, events, crashes, sigs, spec, extra_cov=cov, extra_violations=(extra or {}).get("violations"),
+                            extra_samples=(extra or {}).get("samples"))
+
+
+SPECS["C20"] = dict(
+    run=run_multi, test="TestVerifC20*", level="exploration", exhaustive=True,
+    parts=[
+        dict(module=".", pkgdir="internal/sets", harness=["sets_common", "stringset"], test="TestVerifC20Sets", out="stringset"),
+        dict(module=".", pkgdir="stringclassifier/internal/sets", harness=["sets_common", "intset"], test="TestVerifC20Sets", out="intset"),
+        dict(module=".", pkgdir="stringclassifier/internal/pq", harness=["pq"], test="TestVerifC20PQ", out="pq"),
+    ],
+    builds=[dict(module=".", pkgdir="internal/sets", harness=["sets_common", "stringset"]),
+            dict(module=".", pkgdir="stringclassifier/internal/sets", harness=["sets_common", "intset"]),
+            dict(module=".", pkgdir="stringclassifier/internal/pq", harness=["pq"])],
+    title="internal containers behave as their mathematical models",
+    technique="reference models stepped in lock-step with the implementation; exhaustive short histories + seeded long ones",
+    rule=("StringSet and IntSet (same engine through an adapter): reference model map[int]bool per slot; EVERY sequence of <= 3 (quick) / 4 (thorough) operations from the full alphabet "
+          "(Insert/Delete x 3 elements, Copy/Union/Intersect/Difference/Unique x receiver x argument incl. nil x destination; 64 operations) over 2 live sets, every sequence of <= 4/5 from a reduced alphabet (26 operations), "
+          "thorough also 3 live sets; plus seeded sequences of 100-2000 operations over universes of 5-50 and multi-element Insert. After every step every live set is observed completely "
+          "(Len, Empty, Contains over the universe, Sorted, Elements, Equal and Disjoint between all pairs and against nil) and every fresh result gets an aliasing probe. "
+          "Priority queue: every history of <= 5 (quick) / 6 (thorough) operations from {Push(0..2), Pop, Remove(pos 0..2), Fix(pos 0..2 -> prio 0..2)} (16 operations), plus seeded histories of 200-2000 operations with many ties; "
+          "after every step: multiset conserved, every element's last setIndex value equals its heap position (white-box scan), heap order, Min/Pop minimal. exhaustive=true refers to these bounded history spaces. "
+          "case = the sub-tree of histories below one first operation, or one random history; distinct = (package, case)."),
+    assumptions=list(V1_ASSUME),
+    floor_evals={"quick": 1000, "thorough": 40000},
+    floor_nontrivial={"quick": 1000, "thorough": 40000},
+)
